@@ -276,15 +276,19 @@ class ADP_EAMTabulation(SetFL_EAMTabulation):
     """Write the tabulation to the file object `fp`.
 
     :param fp: File object into which data should be written."""
+    # Build the complete table first so that nothing is written if evaluating a function fails part-way.
+    from io import StringIO
+    workfp = StringIO()
     writeSetFL(
       self.nrho, self.drho, 
       self.nr, self.dr,
       self.eam_potentials,
       self.potentials,
-      out = fp)
+      out = workfp)
 
-    self._write_dipole(fp)
-    self._write_quadrupole(fp)
+    self._write_dipole(workfp)
+    self._write_quadrupole(workfp)
+    fp.write(workfp.getvalue())
 
 
   def _write_dipole(self, fp):
